@@ -245,3 +245,62 @@ Definition access_complete : bool :=
 Definition new_complete : bool :=
   forallb (fun r => existsb (fun st => String.eqb (s_root st) r && match s_kind st with KNew _ _ _ => true | _ => false end) sites)
           ["tattach.handle"; "twalk.handle"; "tlcreate.handle"; "txattrwalk.handle"].
+
+(** ** "same path => same path node", the source side.
+    Path nodes live in exactly three places: the one tree root of the Server (shared by all its connections),
+    the [pathNode] of a fidRef, and the [childNodes] map of a path node.  A pathNode is constructed in exactly
+    two places: NewServer (the root, once per server) and pathNodeFor (stored into [childNodes] under the
+    name asked for).  A root kept per connection, a fidRef given a private node, a second constructor:
+    each re-opens this obligation (and [new_ref_ok] for the fidRef literal concerned).  With these sources
+    Locks/NodeId.v proves that walking one path twice ends on one node. *)
+Definition expected_node_fields : list (string * string) := [("Server", "ptr"); ("fidRef", "ptr"); ("pathNode", "map")].
+Definition expected_node_allocs : list (string * string) :=
+  [("NewServer", "field:Server"); ("newPathNode", "return"); ("pathNode.pathNodeFor", "childNodes[...]")].
+
+Fixpoint spairs_eqb (a b : list (string * string)) : bool :=
+  match a, b with
+  | [], [] => true
+  | (x, y) :: a', (x', y') :: b' => String.eqb x x' && String.eqb y y' && spairs_eqb a' b'
+  | _, _ => false
+  end.
+
+(** pathNodeFor's lookup-or-make is atomic: every store to [childNodes] in pathNodeFor holds that node's childMu
+    for writing, and the same run of pathNodeFor (same root, same node) shows a read of [childNodes] with
+    that write lock held — the re-check after re-locking (NodeId.node_for is that atomic step) *)
+Definition in_node_for (st : site) (w : bool) : option slock :=
+  match s_kind st with
+  | KAccess "childNodes" want w' => if String.eqb (s_fn st) "pathNode.pathNodeFor" && Bool.eqb w w' then Some want else None
+  | _ => None
+  end.
+Definition node_for_atomic : bool :=
+  existsb (fun st => match in_node_for st true with Some _ => true | None => false end) sites &&
+  forallb (fun st => match in_node_for st true with
+                     | Some want =>
+                         hasW (s_held st) want &&
+                         existsb (fun st' => String.eqb (s_root st') (s_root st) &&
+                                             match in_node_for st' false with
+                                             | Some want' => slock_eqb want want' && hasW (s_held st') want'
+                                             | None => false end) sites
+                     | None => true end) sites.
+
+Definition node_identity_ok : bool :=
+  spairs_eqb node_fields expected_node_fields && spairs_eqb node_allocs expected_node_allocs && node_for_atomic.
+
+(** ** C16: reference counts of fidRefs reached through the path tree.  A fidRef stays registered in its parent's
+    [childRefs] until its destructor (count reached 0: File.Close, then removeChild) has finished, and no lock
+    covers that window (Tclunk takes no rename lock).  So a fidRef found by ranging over [childRefs] (rename and
+    unlink notifications) may be dying: it may only be acquired with TryIncRef — an unconditional IncRef would
+    resurrect it (0 -> 1), call Renamed on a File being closed and run the destructor a second time.
+    Every other IncRef in the server is made by a holder of a reference (fid table entry under fidMu, the
+    request's own lookup, a fidRef under construction). *)
+Definition ref_ok (st : site) : bool :=
+  match s_kind st with
+  | KRef op weak => negb weak || String.eqb op "TryIncRef"
+  | _ => true
+  end.
+Definition is_weak_try (st : site) : bool := match s_kind st with KRef "TryIncRef" true => true | _ => false end.
+(** non-vacuity, without naming functions: two different places acquire weak references (the rename callback
+    and the notification below a renamed directory), and ordinary IncRefs are in the table as well *)
+Definition weak_refs_seen : bool :=
+  existsb (fun a => is_weak_try a && existsb (fun b => is_weak_try b && negb (String.eqb (s_pos a) (s_pos b))) sites) sites &&
+  existsb (fun st => match s_kind st with KRef "IncRef" false => true | _ => false end) sites.
